@@ -1,4 +1,4 @@
-import Pyunicorn.Lemmas.Events
+import Pyunicorn.Lemmas.EventsSpec
 /-!
 # C16 — Event synchronisation / coincidence follow their counting rules
 
@@ -297,6 +297,131 @@ theorem eca_start_slice_eq_time_exclusion (e : List Rat) (h : Rat) (t : List Rat
   simp only [nStart, List.head?_cons]
   exact drop_countP_le_sorted (h + c) (h :: t) hs
 
+/-! ## counting formulas: the code's result *is* the published formula -/
+
+/-- **event synchronisation = its counting formula.**  For all event-time lists, windows
+and lags the model of `event_synchronization` (slices `[1:-1]`, `np.diff`, doubled
+distances `dstxy2`/`tau2`, `np.repeat`-ed outer comparisons, the two double-count loops)
+returns: NaN if a series has no event, `0` if one has at most two, otherwise
+`c(x|y)`, `c(y|x)` of the index-wise published formula `esFormula` (sum over inner event
+pairs of `J_ij` with `τ_ij = ½ min` of the four neighbouring waiting times capped by
+`taumax`, `½` for simultaneous events and for double-counted pairs), with the squared
+norm `(lx-2)(ly-2)`. -/
+theorem es_eq_formula (ex ey : List Rat) (tm : Option Rat) (lag : Rat) :
+    es ex ey tm lag = esSpec ex ey tm lag := by
+  unfold es esSpec
+  simp only [innerEvents_eq_innerEv, countXY_eq_formula]
+  by_cases h1 : ex.length = 0 ∨ (ey.map (· + lag)).length = 0
+  · rw [if_pos h1, if_pos h1]
+  · rw [if_neg h1, if_neg h1]
+    by_cases h2 : ex.length = 1 ∨ ex.length = 2 ∨ (ey.map (· + lag)).length = 1 ∨
+        (ey.map (· + lag)).length = 2
+    · rw [if_pos h2, if_pos (by omega)]
+    · rw [if_neg h2, if_neg (by omega)]
+      congr 1
+      rw [← countXY_swap, countXY_eq_formula]
+
+/-- the second return value is the same formula with the roles of the series exchanged -/
+theorem es_formula_directions (ex ey : List Rat) (tm : Option Rat) (lag : Rat) (a b : Rat)
+    (n : Nat) (h : es ex ey tm lag = .val a b n) :
+    a = esFormula tm ex (ey.map (· + lag)) ∧ b = esFormula tm (ey.map (· + lag)) ex ∧
+      n = (ex.length - 2) * (ey.length - 2) := by
+  rw [es_eq_formula] at h
+  unfold esSpec at h
+  simp only at h
+  split at h
+  · cases h
+  · split at h
+    · cases h
+    · injection h with h1 h2 h3
+      simp only [List.length_map] at h3
+      exact ⟨h1.symm, h2.symm, h3.symm⟩
+
+/-- non-vacuity: the formula is evaluated on six events each (a double-counted pair,
+a simultaneous pair) -/
+example : ∃ a b, esSpec [0, 1, 2, 4, 6, 7] [0, 1, 3, 4, 6, 8] none 0 = .val a b 16 :=
+  ⟨_, _, rfl⟩
+
+/-- the trigger exclusion `[:, :l - n22]` with `n22 = len(e2[e2 >= e2[-1] - lag - taumax])`
+removes, on strictly increasing event times, exactly the events not earlier than
+`e2[-1] - lag - taumax` -/
+theorem eca_end_slice_eq_time_exclusion (e : List Rat) (c : Rat)
+    (hs : List.Pairwise (· < ·) e) :
+    e.take (e.length - nEnd e c) = e.filter fun t => !late e c t :=
+  take_nEnd e c hs
+
+/-- the symmetric-window slice `[n11 : l - n12]` keeps exactly the events that are
+neither early nor late (also when the two excluded sets overlap) -/
+theorem eca_mid_slice_eq_time_exclusion (e : List Rat) (c : Rat)
+    (hs : List.Pairwise (· < ·) e) :
+    (e.take (e.length - nEnd e c)).drop (nStart e c)
+      = e.filter fun t => (!early e c t) && !late e c t :=
+  mid_nStart_nEnd e c hs
+
+/-- **event coincidence analysis = its counting formula.**  On strictly increasing event
+times all four rates of `event_coincidence_analysis` (count-based slices `[n11:]`,
+`[: l - n22]`, …) equal `r = (1/(N-n)) Σ_i Θ[Σ_j 1_[0,ΔT](t_i - t_j - τ)]` over the events
+that are not excluded *by their time* (`t ≤ t_first + τ + ΔT` for precursor rates,
+`t ≥ t_last - τ - ΔT` for trigger rates), `n` the number of excluded events. -/
+theorem eca_eq_formula (e1 e2 : List Rat) (tm lag : Rat)
+    (h1 : List.Pairwise (· < ·) e1) (h2 : List.Pairwise (· < ·) e2) :
+    eca e1 e2 tm lag = ecaFormula e1 e2 tm lag := by
+  unfold eca ecaFormula
+  by_cases h : e1 = [] ∨ e2 = []
+  · rw [if_pos h, if_pos h]
+  · rw [if_neg h, if_neg h]
+    simp only [prec, trig, rateFormula, rateFormulaT, drop_nStart_inst _ _ _ h1,
+      drop_nStart_inst _ _ _ h2, take_nEnd_inst _ _ _ h1, take_nEnd_inst _ _ _ h2]
+    simp only [nStart_inst, nEnd_inst, Int.sub_zero, Int.natCast_zero]
+
+/-- **`_eca_coincidence_rate` = its counting formula** for the three window types
+(`advanced` = precursor, `retarded` = trigger, `symmetric` = window `[-ΔT, ΔT]` with both
+ends of the record excluded; denominator `N - n_start - n_end` as the code normalises) -/
+theorem ecaRate_eq_formula (w : Window) (e1 e2 : List Rat) (tm lag : Rat)
+    (h1 : List.Pairwise (· < ·) e1) (h2 : List.Pairwise (· < ·) e2) :
+    ecaRate w e1 e2 tm lag = ecaRateFormula w e1 e2 tm lag := by
+  unfold ecaRate ecaRateFormula
+  by_cases h : e1 = [] ∨ e2 = []
+  · rw [if_pos h, if_pos h]
+  · rw [if_neg h, if_neg h]
+    cases w
+    · simp only [prec, rateFormula, drop_nStart_inst _ _ _ h1, drop_nStart_inst _ _ _ h2]
+      simp only [nStart_inst, Int.sub_zero, Int.natCast_zero]
+    · simp only [trig, rateFormulaT, take_nEnd_inst _ _ _ h1, take_nEnd_inst _ _ _ h2]
+      simp only [nEnd_inst]
+    · simp only [prec, rateFormula, mid_inst _ _ _ h1, mid_inst _ _ _ h2]
+      simp only [nStart_inst, nEnd_inst]
+
+example : ∃ o, ecaFormula [1, 3, 4] [0, 5] 1 (1/2) = some o := ⟨_, rfl⟩
+example : List.Pairwise (· < ·) ([1, 3, 4] : List Rat) := by decide
+
+/-! ## from time stamps to event times: the hypotheses above are met by the callers -/
+
+/-- `ts[series == 1]` of strictly increasing time stamps is strictly increasing, and the
+default time stamps `0, 1, …, T-1` are strictly increasing: the hypothesis of
+`es_range`, `eca_eq_formula`, … holds for every call with such time stamps -/
+theorem event_times_sorted (ts : List Rat) (b : List Bool) (T : Nat) :
+    (List.Pairwise (· < ·) ts → List.Pairwise (· < ·) (select ts b)) ∧
+    List.Pairwise (· < ·) (select (indexTimes T) b) :=
+  ⟨select_sorted ts b, select_sorted _ b (indexTimes_sorted T)⟩
+
+/-- **range**, stated for the call `event_synchronization(x, y, ts1, ts2, taumax, lag)` -/
+theorem esSeries_range (ts1 ts2 : List Rat) (bx by_ : List Bool) (tm : Option Rat) (lag : Rat)
+    (h1 : List.Pairwise (· < ·) ts1) (h2 : List.Pairwise (· < ·) ts2) (a b : Rat) (n : Nat)
+    (h : esSeries ts1 bx ts2 by_ tm lag = .val a b n) :
+    (0 ≤ a ∧ a * a ≤ (n : Rat)) ∧ (0 ≤ b ∧ b * b ≤ (n : Rat)) :=
+  es_range _ _ tm lag a b n (select_sorted ts1 bx h1) (select_sorted ts2 by_ h2) h
+
+/-- **counting formula**, stated for the call `event_coincidence_analysis(x, y, taumax, ts1,
+ts2, lag)` and `_eca_coincidence_rate` -/
+theorem ecaSeries_eq_formula (ts1 ts2 : List Rat) (bx by_ : List Bool) (tm lag : Rat)
+    (h1 : List.Pairwise (· < ·) ts1) (h2 : List.Pairwise (· < ·) ts2) (w : Window) :
+    ecaSeries ts1 bx ts2 by_ tm lag = ecaFormula (select ts1 bx) (select ts2 by_) tm lag ∧
+    ecaRateSeries w ts1 bx ts2 by_ tm lag
+      = ecaRateFormula w (select ts1 bx) (select ts2 by_) tm lag :=
+  ⟨eca_eq_formula _ _ tm lag (select_sorted ts1 bx h1) (select_sorted ts2 by_ h2),
+   ecaRate_eq_formula w _ _ tm lag (select_sorted ts1 bx h1) (select_sorted ts2 by_ h2)⟩
+
 /-! ## N×N matrix -/
 
 /-- entry `[i,j]` of the symmetrised matrix is `op M[i,j] M[j,i]` -/
@@ -339,6 +464,65 @@ theorem esAnalysis_entry (ts : List Rat) (E : Mat Bool) (n : Nat) (tm : Option R
     (esAnalysis ts E n tm lag s).get none i j
       = esSymmOp s ((esMatrix ts E n tm lag).get none i j) ((esMatrix ts E n tm lag).get none j i) :=
   symmetrize_entry n none none (esSymmOp s) _ i j hi hj
+
+/-- the ECA matrix holds, at `[i,j]` and `[j,i]` (`i < j`), the two rates of
+`_eca_coincidence_rate(column i, column j, window_type)` on the object's time stamps;
+the matrix exists iff no pair raises -/
+theorem ecaMatrix_entry (w : Window) (ts : List Rat) (E : Mat Bool) (n : Nat) (tm lag : Rat)
+    (M : Mat (Option Rat)) (h : ecaMatrix w ts E n tm lag = some M)
+    (i j : Nat) (hij : i < j) (hj : j < n) :
+    ∃ a b, ecaRateSeries w ts (column E i) ts (column E j) tm lag = some (a, b) ∧
+      M.get none i j = rateVal a ∧ M.get none j i = rateVal b := by
+  unfold ecaMatrix at h
+  split at h
+  · rename_i hall
+    injection h with h
+    subst h
+    have hm := List.all_eq_true.1 hall (i, j) ((mem_upperPairs n i j).2 ⟨hij, hj⟩)
+    simp only [Option.isSome_iff_exists] at hm
+    obtain ⟨⟨a, b⟩, hab⟩ := hm
+    refine ⟨a, b, hab, ?_, ?_⟩
+    · rw [assemble_entry _ _ _ _ i j (by omega) hj, if_pos hij, hab]
+    · rw [assemble_entry _ _ _ _ j i hj (by omega), if_neg (by omega), if_pos hij, hab]
+  · cases h
+
+/-- the diagonal of both matrices is the initial zero -/
+theorem matrix_diagonal (w : Window) (ts : List Rat) (E : Mat Bool) (n : Nat) (tmo : Option Rat)
+    (tm lag : Rat) (M : Mat (Option Rat)) (h : ecaMatrix w ts E n tm lag = some M)
+    (i : Nat) (hi : i < n) :
+    M.get none i i = some 0 ∧ (esMatrix ts E n tmo lag).get none i i = some (0, 1) := by
+  unfold ecaMatrix at h
+  split at h
+  · injection h with h
+    subst h
+    unfold esMatrix
+    rw [assemble_entry _ _ _ _ i i hi hi, assemble_entry _ _ _ _ i i hi hi]
+    simp
+  · cases h
+
+/-- `event_series_analysis(method='ECA', symmetrization=s, window_type=w)`: entry `[i,j]`
+is the (NaN-propagating) symmetrisation of the directed entries `[i,j]` and `[j,i]` -/
+theorem ecaAnalysis_entry (w : Window) (ts : List Rat) (E : Mat Bool) (n : Nat) (tm lag : Rat)
+    (s : Symm) (A : Mat (Option Rat)) (h : ecaAnalysis w ts E n tm lag s = some A)
+    (i j : Nat) (hi : i < n) (hj : j < n) :
+    ∃ M, ecaMatrix w ts E n tm lag = some M ∧
+      A.get none i j = symmOpN s (M.get none i j) (M.get none j i) := by
+  unfold ecaAnalysis at h
+  cases hM : ecaMatrix w ts E n tm lag with
+  | none => simp [hM] at h
+  | some M =>
+    simp only [hM, Option.map_some, Option.some.injEq] at h
+    subst h
+    exact ⟨M, rfl, symmetrize_entry n none none (symmOpN s) M i j hi hj⟩
+
+/-- NaN-propagating lift: a non-NaN pair is symmetrised by the table, NaN propagates
+(except under `directed`, which only reads `[i,j]`) -/
+theorem symmOpN_spec (s : Symm) (a b : Rat) :
+    symmOpN s (some a) (some b) = some (symmOp s a b) ∧
+    symmOpN .directed (some a) none = some a ∧
+    (s ≠ .directed → symmOpN s (some a) none = none ∧ symmOpN s none (some b) = none) := by
+  refine ⟨by cases s <;> rfl, rfl, fun hs => ?_⟩
+  cases s <;> first | exact absurd rfl hs | exact ⟨rfl, rfl⟩
 
 /-! ## symmetrisation table -/
 
@@ -418,5 +602,115 @@ example : resolveThreshold [1, 5, 2, 4] .quantile (some (3/4)) none
   resolve_quantile _ _ _ (by grind) (by grind)
 example : resolveThreshold [1, 5, 2, 4] .value (some 3) (some .below) = .ok (3, .below) :=
   resolve_value _ _ _ ⟨2, by simp, by grind⟩ ⟨4, by simp, by grind⟩
+
+/-- **thresholding, whole call.**  If `make_event_matrix` returns, the result has one row
+per sample, and entry `[t,i]` (`i < nvar`) is `mark th ty data[t][i]` for the threshold and
+type the code settled on for variable `i` (`resolveThreshold` on column `i` with the
+`i`-th method / value / type) — with `mark_iff`: exactly the samples strictly beyond. -/
+theorem makeEventMatrix_ok (data : Mat Rat) (nvar : Nat) (ms : List TMethod)
+    (vs : List (Option Rat)) (tys : List (Option TType)) (M : Mat Bool)
+    (h : makeEventMatrix data nvar ms vs tys = .ok M) :
+    M.length = data.length ∧
+    ∀ t i, t < data.length → i < nvar → ∃ th ty,
+      resolveThreshold (dataColumn data i) (ms.getD i .quantile) (vs.getD i none)
+        (tys.getD i none) = .ok (th, ty) ∧
+      M.get false t i = mark th ty ((data.getD t []).getD i 0) := by
+  unfold makeEventMatrix at h
+  cases hthr : (List.range nvar).mapM (fun i =>
+      resolveThreshold (dataColumn data i) (ms.getD i .quantile) (vs.getD i none)
+        (tys.getD i none)) with
+  | error e =>
+    simp only [bind, Except.bind, pure, Except.pure] at h
+    rw [hthr] at h
+    cases h
+  | ok thr =>
+    simp only [bind, Except.bind, pure, Except.pure] at h
+    rw [hthr] at h
+    simp only [Except.ok.injEq] at h
+    subst h
+    obtain ⟨hl, hk⟩ := mapM_ok _ _ _ hthr
+    refine ⟨by simp, ?_⟩
+    intro t i ht hi
+    have hi' : i < thr.length := by simpa [hl] using hi
+    have := hk i (by simpa using hi) hi'
+    simp only [List.getElem_range] at this
+    refine ⟨thr[i].1, thr[i].2, this, ?_⟩
+    simp [Mat.get, List.getD_eq_getElem?_getD, ht, hi, hi']
+
+/-- if `make_event_matrix` raises, it raises the error of the first variable whose
+parameters are rejected (quantile outside `[0,1]` → `ValueError`, value outside the data
+range → `IOError`), and every earlier variable was accepted -/
+theorem makeEventMatrix_error (data : Mat Rat) (nvar : Nat) (ms : List TMethod)
+    (vs : List (Option Rat)) (tys : List (Option TType)) (e : ThrErr)
+    (h : makeEventMatrix data nvar ms vs tys = .error e) :
+    ∃ i, i < nvar ∧
+      resolveThreshold (dataColumn data i) (ms.getD i .quantile) (vs.getD i none)
+        (tys.getD i none) = .error e ∧
+      ∀ i' < i, ∃ p, resolveThreshold (dataColumn data i') (ms.getD i' .quantile)
+        (vs.getD i' none) (tys.getD i' none) = .ok p := by
+  unfold makeEventMatrix at h
+  cases hthr : (List.range nvar).mapM (fun i =>
+      resolveThreshold (dataColumn data i) (ms.getD i .quantile) (vs.getD i none)
+        (tys.getD i none)) with
+  | ok thr =>
+    simp only [bind, Except.bind, pure, Except.pure] at h
+    rw [hthr] at h
+    cases h
+  | error e' =>
+    simp only [bind, Except.bind, pure, Except.pure] at h
+    rw [hthr] at h
+    simp only [Except.error.injEq] at h
+    subst h
+    obtain ⟨k, hk, hfk, hbefore⟩ := mapM_error _ _ _ hthr
+    simp only [List.length_range] at hk
+    simp only [List.getElem_range] at hfk hbefore
+    exact ⟨k, hk, hfk, fun i' hi' => hbefore i' hi'⟩
+
+/-- **thresholding marks exactly the samples beyond the stated quantile**: with method
+`'quantile'`, quantile `q ∈ [0,1]` and an explicit type for every variable, entry `[t,i]`
+is set iff `data[t][i]` is strictly above (`'above'`) / below (`'below'`) the `q`-quantile
+of column `i` -/
+theorem threshold_marks_exactly_quantile (data : Mat Rat) (nvar : Nat) (q : Rat) (ty : TType)
+    (h0 : 0 ≤ q) (h1 : q ≤ 1) (M : Mat Bool)
+    (h : makeEventMatrix data nvar (List.replicate nvar .quantile)
+      (List.replicate nvar (some q)) (List.replicate nvar (some ty)) = .ok M)
+    (t i : Nat) (ht : t < data.length) (hi : i < nvar) :
+    M.get false t i = mark (quantile (dataColumn data i) q) ty ((data.getD t []).getD i 0) := by
+  obtain ⟨_, hM⟩ := makeEventMatrix_ok _ _ _ _ _ M h
+  obtain ⟨th, ty', hr, hm⟩ := hM t i ht hi
+  have e1 : (List.replicate nvar TMethod.quantile).getD i .quantile = .quantile := by
+    simp [List.getD_eq_getElem?_getD, hi]
+  have e2 : (List.replicate nvar (some q)).getD i none = some q := by
+    simp [List.getD_eq_getElem?_getD, hi]
+  have e3 : (List.replicate nvar (some ty)).getD i none = some ty := by
+    simp [List.getD_eq_getElem?_getD, hi]
+  rw [e1, e2, e3, resolve_quantile _ q _ h0 h1] at hr
+  simp only [Except.ok.injEq, Prod.mk.injEq, Option.getD_some] at hr
+  rw [hm, ← hr.1, ← hr.2]
+
+/-- the same for method `'value'` with a value inside every variable's data range -/
+theorem threshold_marks_exactly_value (data : Mat Rat) (nvar : Nat) (x : Rat) (ty : TType)
+    (M : Mat Bool)
+    (h : makeEventMatrix data nvar (List.replicate nvar .value)
+      (List.replicate nvar (some x)) (List.replicate nvar (some ty)) = .ok M)
+    (t i : Nat) (ht : t < data.length) (hi : i < nvar) :
+    M.get false t i = mark x ty ((data.getD t []).getD i 0) := by
+  obtain ⟨_, hM⟩ := makeEventMatrix_ok _ _ _ _ _ M h
+  obtain ⟨th, ty', hr, hm⟩ := hM t i ht hi
+  have e1 : (List.replicate nvar TMethod.value).getD i .quantile = .value := by
+    simp [List.getD_eq_getElem?_getD, hi]
+  have e2 : (List.replicate nvar (some x)).getD i none = some x := by
+    simp [List.getD_eq_getElem?_getD, hi]
+  have e3 : (List.replicate nvar (some ty)).getD i none = some ty := by
+    simp [List.getD_eq_getElem?_getD, hi]
+  rw [e1, e2, e3] at hr
+  simp only [resolveThreshold] at hr
+  split at hr
+  · cases hr
+  · simp only [Except.ok.injEq, Prod.mk.injEq, Option.getD_some] at hr
+    rw [hm, ← hr.1, ← hr.2]
+
+example : (makeEventMatrix [[1, 5], [2, 7], [4, 6], [3, 8]] 2 [.value, .quantile]
+    [some 2, some (3/4)] [some .above, some .below]).toBool = true := by decide +kernel
 
 end Pyunicorn.Events
